@@ -269,6 +269,14 @@ int32_t tls13NewTicket(ssl_t *ssl,
 # endif
 
     tag = psMalloc(ssl->hsPool, TLS_GCM_TAG_LEN);
+    if (tag == NULL)
+    {
+        tls13FreePsk(psk, ssl->hsPool);
+        psAesClearGCM(&ctx);
+        psFree(state, ssl->hsPool);
+        psDynBufUninit(&buf);
+        return PS_MEM_FAIL;
+    }
     psAesGetGCMTag(&ctx,
             TLS_GCM_TAG_LEN,
             tag);
